@@ -6,6 +6,7 @@
 package raftsim
 
 import (
+	"math"
 	"fmt"
 	"sort"
 	"strconv"
@@ -479,6 +480,11 @@ func Project(n *Node) string {
 		b.WriteString(" lu=-")
 	}
 	fmt.Fprintf(&b, " prev=%d:%d:%d", s.PrevState.Term, s.PrevState.Vote, s.PrevState.Commit)
+	if s.LogQuery != nil {
+		fmt.Fprintf(&b, " lq=%d:%d:%d:%s", s.LogQuery.FirstIndex, s.LogQuery.LastIndex, b2i(s.LogQuery.Error != nil), fmtEntries(s.LogQuery.Entries))
+	} else {
+		b.WriteString(" lq=-")
+	}
 	return b.String()
 }
 
@@ -556,6 +562,8 @@ func (c *Cluster) Exec(op string, rt uint64, force bool) (res Result) {
 				n.Peer.NotifyRaftLastApplied(u(2))
 			case "R":
 				must(n.Peer.ReadIndex(pb.SystemCtx{Low: u(2), High: u(3)}))
+			case "LQ":
+				must(n.Peer.QueryRaftLog(u(2), u(3), math.MaxUint64))
 			case "LT":
 				must(n.Peer.RequestLeaderTransfer(u(2)))
 			case "UN":
